@@ -17,7 +17,8 @@ def gen_expr(rng, depth, names):
     if depth <= 0 or rng.random() < 0.25:
         if rng.random() < 0.75:
             return ("var", rng.choice(names))
-        return ("lit", R.big_int(rng))
+        # (literals of the values that arithmetic could be tempted to simplify away, as often as large ones)
+        return ("lit", rng.choice([0, 0, 1, -1]) if rng.random() < 0.4 else R.big_int(rng))
     k = rng.random()
     if k < 0.08:
         # an accumulator seeded with an existing value and updated by augmented assignment; the seed is used again afterwards
